@@ -21,6 +21,7 @@ CONSTANTS
   PairFirst = {}
   TypedFlush = {TRUE}
   Interleave = TRUE
+  MaxAbandon = 1
   Bug = {}
 INVARIANTS TypeOK DeliveredIsPrefixOfSent AcceptedNeverRejected TypedLayerTotal NoSpuriousMessage WireOK DoneDeliversAll
 CHECK_DEADLOCK FALSE
